@@ -625,7 +625,7 @@ fn check_memory(kind: &str, n: usize) -> Option<String> {
 
 struct Search { rng: Rng, budget: usize, views: Vec<String> }
 impl Search {
-    fn want(&self, k: &str) -> bool { self.views.is_empty() || self.views.iter().any(|v| v == k || alias(v) == k) }
+    fn want(&self, k: &str) -> bool { self.views.is_empty() || self.views.iter().any(|v| v == k || alias(v) == k || alias(k) == v) }
 }
 fn alias(module: &str) -> &str { match module { "eft_ss" => "ehlers_fisher_transform", "correlation_trend_indicator" => "cti", "noise_elimination_technology" => "net", "variance_stabilizing_transformation" => "vst",
     "ehlers_fisher_transform" => "eft", "polarized_fractal_efficiency" => "pfe", m => m } }
